@@ -155,7 +155,46 @@ def mac_bypass(F, p):
     return True, "%d comparison guard(s), %d ignore_macs switch(es)" % (len(M), n_ign)
 
 
+OH_VIEW_SET = "sciparse::proto::dataplane_path::onehop::view::OneHopPathView::set_second_hop"
+OH_MODEL_SET = "sciparse::proto::dataplane_path::onehop::model::OneHopPath::set_second_hop"
+
+
+def onehop_beta_rule(F, R):
+    """SIB-onehop-beta: "every authentic path verifies at every hop".  The second hop field of a one-hop path is MACed over
+    beta_1 = SegID xor MAC(hop 0)[..2]; when the SegID in the info field has not been advanced yet, set_second_hop derives it
+    with mac_beta_step(segment_id, <mac of hop 0>).  View and model implement this twice: in both, every mac_beta_step call
+    must take the MAC of hop index 0 (the previous hop) — hop 1's own MAC is still zero at that point, so chaining over it
+    leaves the SegID unchanged and the hop field fails validation on the way back."""
+    found = {}
+    for p, pat in ((OH_VIEW_SET, r"HopFieldView::mac\(&\*OneHopPathView::(?:mut_)?hop_fields\(&\*param#1\)\[(\d+)\]\)"),
+                   (OH_MODEL_SET, r"\.hops\[(\d+)\]\.mac")):
+        b = F.body(p)
+        if b is None:
+            R.anchor_missing(p)
+            continue
+        R.fn(p)
+        steps = [c for c in b.calls if c.callee and c.callee.endswith("mac::algo::mac_beta_step")]
+        if not steps:
+            R.ob("SIB-onehop-beta", "%s: no mac_beta_step call — not decided" % short(p), True, False)
+            continue
+        for c in steps:
+            txt = fmt(FX.strip_sites(b.origin(c.args[1])), 4000)
+            idx = sorted(set(int(x) for x in re.findall(pat, txt)))
+            if not idx:
+                R.ob("SIB-onehop-beta", "%s: MAC operand of mac_beta_step not recognised — not decided" % short(p), True, False)
+                continue
+            found.setdefault(p, []).append(idx)
+            ok = idx == [0]
+            R.ob("SIB-onehop-beta", "%s chains the second hop over the MAC of hop %s" % (short(p), idx), ok, True,
+                 {"rule": "SIB-onehop-beta", "fn": p, "hop_index": idx})
+            if not ok:
+                R.violation("SIB-onehop-beta", p + "/beta", "%s derives the second hop's beta with mac_beta_step over the MAC of hop %s instead of hop 0: "
+                            "the second hop field is not chained to the first and fails MAC validation once the SegID is advanced" % (short(p), idx), c.span.loc)
+    R.floor("SIB-onehop-beta", len(found), 2, "set_second_hop implementations (view, model) with a recognised mac_beta_step operand")
+
+
 def run(F, R, tier, cfg):
+    onehop_beta_rule(F, R)
     fa = T.FA(F)
     inst = [ROUT + n for n in ("advance_ingress", "advance_ingress_with_validator", "advance_egress", "advance_egress_with_validator")]
     for p in inst:
